@@ -146,8 +146,12 @@ fn parse_request(line: &str) -> Result<Request, (String, String)> {
 
 /// `#[grammar_inline = "..."] #[opt = true] ... struct P;`
 fn derive_input(req: &Request) -> TokenStream {
-    let text = req.grammar.as_str();
-    let mut ts = quote! { #[grammar_inline = #text] };
+    // several grammar sources: the request text is split at U+001E, one `grammar_inline` attribute per part
+    // (the generator concatenates its sources before handing them to pest_meta)
+    let mut ts = TokenStream::new();
+    for part in req.grammar.split('\u{1e}') {
+        ts.extend(quote! { #[grammar_inline = #part] });
+    }
     for (k, v) in &req.opts {
         let id = format_ident!("{}", k);
         match v {
@@ -1188,7 +1192,7 @@ fn extract(ts: TokenStream) -> Result<(String, String, String, String), String> 
 
 fn process(req: &Request) -> String {
     // 1, 3, 4: pest_meta
-    let (meta, asts): (String, Option<String>) = match guarded(|| meta_check(&req.grammar)) {
+    let (meta, asts): (String, Option<String>) = match guarded(|| meta_check(&req.grammar.replace('\u{1e}', ""))) {
         Ok((verdict, ast)) => {
             let (mut meta, mut opt_panic) = (
                 match verdict {
